@@ -179,7 +179,7 @@ def run(prop, tier):
     known = {k["deviation"]: k for k in vlib.known_findings(prop)}
     # E1
     consts = dict(Clients='{"c1","c2","c3"}', Deviations="{}", WithTick="TRUE")
-    r = vlib.run_tlc("Writers", "wr_pure.cfg", cfg_text=vlib.cfg_text(consts, invariants=["AckImpliesSyncedAndVisible", "NoLostWaiter"], view="View"), timeout=900)
+    r = vlib.run_tlc("Writers", "wr_pure.cfg", cfg_text=vlib.cfg_text(consts, invariants=["AckImpliesSyncedAndVisible", "NoLostWaiter"], view="View"), timeout=1800, coverage=not quick)
     vlib.tlc_ok(r, "Writers pure")
     res.tlc(r, "Writers/pure")
     if r["violated"]:
